@@ -44,6 +44,13 @@ pub struct Block {
     pub light: bool,
 }
 
+#[derive(Clone, Copy)]
+struct FreeEnt {
+    inner: usize,
+    size: usize,
+    align: usize,
+}
+
 #[derive(Clone, Copy, Debug, PartialEq, Eq)]
 pub enum EvKind {
     Free,
@@ -113,6 +120,11 @@ impl<T: Copy> SysVec<T> {
 struct State {
     tracking: bool,
     quarantine: bool,
+    /// released tracked blocks are kept by the seam and handed out again, most recently released
+    /// first, to the next tracked request with the identical layout: deterministic, maximally
+    /// eager address reuse (what identity-by-address mistakes need in order to show)
+    recycle: bool,
+    free: SysVec<FreeEnt>,
     ctx: u8,
     ctx_arena: u16,
     /// arena attributed to new blocks
@@ -129,6 +141,8 @@ struct State {
     run_active: bool,
     /// blocks released while quarantined, waiting for `end_run`
     bytes_quarantined: usize,
+    /// tracked requests served from the seam's own free list in this run
+    recycled: u64,
     /// object ids whose Gc block must not be released by the call in progress (C01 / C05): if it
     /// is released all the same, the event is recorded but the memory is left intact, so that
     /// the collector does not trip over poison before the harness can report the violation
@@ -138,6 +152,8 @@ struct State {
 static mut ST: State = State {
     tracking: false,
     quarantine: true,
+    recycle: false,
+    free: SysVec::new(),
     ctx: CTX_OUTSIDE,
     ctx_arena: NO_ARENA,
     cur_arena: NO_ARENA,
@@ -149,6 +165,7 @@ static mut ST: State = State {
     live_gc: [0; 16],
     run_active: false,
     bytes_quarantined: 0,
+    recycled: 0,
     protected: SysVec::new(),
 };
 
@@ -227,7 +244,7 @@ unsafe fn index_rebuild(ncap: usize) {
         for b in 0..ST.blocks.len {
             // released blocks whose memory went back to System are no longer ours to recognise
             let blk = ST.blocks.get(b);
-            if blk.live || (!blk.light && (ST.quarantine || blk.free_ctx == 0xEE)) {
+            if blk.live || (!blk.light && (ST.quarantine || ST.recycle || blk.free_ctx == 0xEE)) {
                 index_put(blk.user, b);
             }
         }
@@ -282,7 +299,27 @@ unsafe impl GlobalAlloc for Seam {
             }
             let r = rz(l.align());
             let total = r + l.size() + r;
-            let inner = System.alloc(Layout::from_size_align_unchecked(total, l.align()));
+            let mut inner: *mut u8 = std::ptr::null_mut();
+            if ST.recycle {
+                let mut k = ST.free.len;
+                while k > 0 {
+                    k -= 1;
+                    let f = *ST.free.get(k);
+                    if f.size == l.size() && f.align == l.align() {
+                        inner = f.inner as *mut u8;
+                        // remove entry k, keeping the order of the rest
+                        for j in k..ST.free.len - 1 {
+                            *ST.free.get_mut(j) = *ST.free.get(j + 1);
+                        }
+                        ST.free.len -= 1;
+                        ST.recycled += 1;
+                        break;
+                    }
+                }
+            }
+            if inner.is_null() {
+                inner = System.alloc(Layout::from_size_align_unchecked(total, l.align()));
+            }
             if inner.is_null() {
                 return inner;
             }
@@ -369,13 +406,15 @@ unsafe impl GlobalAlloc for Seam {
             if shielded {
                 // a wrongful release: keep the bytes (and the memory) as they are
                 ST.bytes_quarantined += r + b.size + r;
-                if !ST.quarantine {
+                if !ST.quarantine || ST.recycle {
                     ST.blocks.get_mut(i).free_ctx = 0xEE; // still to be given back at the next begin_run
                 }
                 return;
             }
             std::ptr::write_bytes(p, POISON_BYTE, b.size);
-            if ST.quarantine {
+            if ST.recycle {
+                ST.free.push(FreeEnt { inner: inner as usize, size: b.size, align: b.align });
+            } else if ST.quarantine {
                 ST.bytes_quarantined += r + b.size + r;
             } else {
                 index_remove(p as usize);
@@ -442,9 +481,17 @@ pub fn ctx() -> (u8, u16) {
 
 /// Start of a run: everything released so far leaves the table; blocks still live stay known
 /// (they may be released later, e.g. a leaked arena of an aborted run never is).
-pub fn begin_run(quarantine: bool) {
+pub fn begin_run(quarantine: bool, recycle: bool) {
     unsafe {
         let _p = pause();
+        // memory the seam kept for reuse goes back first (the table below no longer owns it)
+        for k in 0..ST.free.len {
+            let f = *ST.free.get(k);
+            let r = rz(f.align);
+            System.dealloc(f.inner as *mut u8, Layout::from_size_align_unchecked(r + f.size + r, f.align));
+        }
+        ST.free.clear();
+        ST.recycled = 0;
         // give quarantined memory back and compact the table to the live blocks
         let mut kept = 0usize;
         for i in 0..ST.blocks.len {
@@ -456,14 +503,15 @@ pub fn begin_run(quarantine: bool) {
                 b2.arena = NO_ARENA;
                 *ST.blocks.get_mut(kept) = b2;
                 kept += 1;
-            } else if !b.light && (ST.quarantine || b.free_ctx == 0xEE) {
+            } else if !b.light && ((ST.quarantine && !ST.recycle) || b.free_ctx == 0xEE) {
                 let r = rz(b.align);
                 System.dealloc((b.user - r) as *mut u8, Layout::from_size_align_unchecked(r + b.size + r, b.align));
             }
         }
         ST.blocks.len = kept;
         ST.bytes_quarantined = 0;
-        ST.quarantine = quarantine;
+        ST.quarantine = quarantine && !recycle;
+        ST.recycle = recycle && !cfg!(miri);
         ST.protected.clear();
         ST.events.clear();
         ST.live_gc = [0; 16];
@@ -499,6 +547,11 @@ pub fn end_run() {
         ST.run_active = false;
         ST.tracking = false;
     }
+}
+
+/// Tracked requests that were given a just-released address in this run.
+pub fn recycled() -> u64 {
+    unsafe { ST.recycled }
 }
 
 /// Number of blocks recorded so far in this run (a position in the allocation log).
